@@ -196,6 +196,43 @@ def gen_behaviours(cfg, module, out, simulate=None, timeout=900, seed=1, cap=Non
         for p in pre: f.write(p + '\n')
     return {'cfg': cfg, 'behaviours': len(pre), 'states': st[0], 'distinct': st[1]}
 
+def crash_refinement(cfg, module, work):
+    """every crash snapshot of the implementation (state after each mutating call of the last invocation of a scripted
+    history, without stamps) must be one of the crash states of the model for that history (all interleavings, finer crash points)"""
+    md = tempfile.mkdtemp(prefix='tlccs', dir=WORK)
+    try:
+        rc, o = sh('timeout 900 tlc -workers 4 -metadir %s -cleanup -noGenerateSpecTE -config %s.cfg %s.tla' % (md, cfg, module), cwd=SPEC, timeout=960)
+    finally:
+        shutil.rmtree(md, ignore_errors=True)
+    def canon(st):
+        return json.dumps({'ws': {p: {'c': f['c'], 'x': f['x']} for p, f in st['ws'].items()},
+                           'cache': {p: {'c': f['c'], 'x': f['x']} for p, f in st['cache'].items()},
+                           'hist': st['hist'], 'fstab': {p: {'h': f['h'], 'x': f['x']} for p, f in st['fstab'].items()},
+                           'rdir': {k: st['rdir'][k] for k in ('root', 'cache', 'hist', 'tab')}}, sort_keys=True)
+    model, hdr, longest = set(), None, []
+    for l in o.split('\n'):
+        if l.startswith('<<"CRASHSTATE", '):
+            st = json.loads(json.loads(l[len('<<"CRASHSTATE", '):-2]))
+            for k in ('ws', 'cache', 'hist', 'fstab'):
+                if isinstance(st[k], list): st[k] = {}
+            model.add(canon(st))
+        elif l.startswith('<<"SCENARIO", '): hdr = json.loads(l[len('<<"SCENARIO", '):-2])
+        elif l.startswith('<<"PREFIX", '):
+            tr = [e for e in json.loads(json.loads(l[len('<<"PREFIX", '):-2])) if e['a'] != 'pick']
+            if len(tr) > len(longest): longest = tr
+    if not model or hdr is None or not longest: raise ToolError('crash-state generator %s produced nothing: %s' % (cfg, o[-800:]))
+    beh = '%s/beh_%s.ndjson' % (work, cfg); out = '%s/crashset_%s.ndjson' % (work, cfg)
+    open(beh, 'w').write(hdr + '\n' + json.dumps(longest) + '\n')
+    harness(['replay', '--in', beh, '--out', out, '--tag', cfg, '--serial-ref', '0', '--crash-last', '1'])
+    impl, missing = set(), []
+    for l in open(out):
+        e = json.loads(l)
+        if e['a'] == 'crash':
+            if e['state'].get('other'): missing.append({'at': e['at'], 'reason': 'files the model does not know', 'other': e['state']['other']}); continue
+            c = canon(e['state']); impl.add(c)
+            if c not in model: missing.append({'at': e['at'], 'state': json.loads(c)})
+    return {'cfg': cfg, 'model_crash_states': len(model), 'impl_crash_states': len(impl), 'not_in_model': missing[:5], 'n_not_in_model': len(missing)}
+
 # ---------------------------------------------------------------- evidence
 def write_evidence(pid, tier, seed, level, coverage, assumptions, wall, violations, extra=None):
     os.makedirs(ROOT + '/evidence', exist_ok=True)
